@@ -13,6 +13,30 @@ import (
 	"github.com/miekg/dns"
 )
 
+// verifScrambler is a message disposer that makes a disposed message unusable at once
+// (as a pool does when another request takes the object) and counts disposals.
+type verifScrambler struct {
+	n      map[*dns.Msg]int
+	double bool
+}
+
+func (d *verifScrambler) Dispose(m *dns.Msg) {
+	if m == nil {
+		return
+	}
+	if d.n == nil {
+		d.n = map[*dns.Msg]int{}
+	}
+	d.n[m]++
+	if d.n[m] > 1 {
+		d.double = true
+	}
+	m.Id ^= 0xffff
+	m.Question = nil
+	m.Answer = nil
+	m.Rcode = dns.RcodeNameError
+}
+
 type verifDoHW struct {
 	hdr      http.Header
 	statuses []int
@@ -39,7 +63,8 @@ func (w *verifDoHW) Write(b []byte) (int, error) {
 //verif:assume net/http server framing is outside the claim: the handler is driven with a constructed *http.Request and a recording ResponseWriter
 func VerifC01DoHWire() {
 	h := &verifAnswering{}
-	srv := &ServerHTTPS{ServerBase: newServerBase(ProtoDoH, ConfigBase{Handler: h})}
+	disp := &verifScrambler{}
+	srv := &ServerHTTPS{ServerBase: newServerBase(ProtoDoH, ConfigBase{Handler: h, Disposer: disp})}
 	hh := &httpHandler{srv: srv, localAddr: &net.TCPAddr{IP: net.IP{192, 0, 2, 1}, Port: 443}}
 	w := &verifDoHW{hdr: http.Header{}}
 	r := &http.Request{URL: &url.URL{Path: "/dns-query"}, Header: http.Header{}, RemoteAddr: "198.51.100.7:4321"}
@@ -101,5 +126,6 @@ func VerifC01DoHWire() {
 		verifAssert("answer-echoes-the-question", len(out.Question) == 1 && len(probe.Question) == 1 && out.Question[0] == probe.Question[0])
 	}
 	verifAssert("handler-reached-at-most-once", h.calls <= 1)
+	verifAssert("response-disposed-at-most-once-and-only-after-it-was-written", !disp.double)
 	verifReach("answered")
 }
